@@ -104,3 +104,21 @@ Definition kshow (co : kcase * list Z) : list Z * list Z :=
   | None => ([], [])
   | Some p => (kmodel true c, kobs (kc_base c) p)
   end.
+
+(** free-running threads: only the listener events are ordered reliably (they are delivered under the
+    breaker's state lock): they must form a valid path, each transition from the state told last, and
+    Open -> Half-Open never before the deadline in force *)
+Fixpoint ok_path (s : bstate) (log : list cev) : bool :=
+  match log with
+  | [] => true
+  | ETrans _ from to now retry :: tl =>
+      bstate_eqb from s && valid_tr from to &&
+      (match from, to with Open, HalfOpen => retry <=? now | _, _ => true end) && ok_path to tl
+  | _ :: tl => ok_path s tl
+  end.
+Definition agree_free (co : kcase * list Z) : bool := true.
+Definition spec_c16_free (co : kcase * list Z) : bool :=
+  match kparse (kc_base (fst co)) (snd co) with
+  | None => false
+  | Some (d, tr, evs, fin) => d && ok_path Closed evs
+  end.
